@@ -2,6 +2,7 @@ import LekkerVerif.Model.Sweep
 import LekkerVerif.Generated.Tables
 import LekkerVerif.Properties.C18
 import LekkerVerif.Core.ShapeIndep
+import LekkerVerif.Model.HierParams
 
 /-! # C04 — a parameter sweep equals the stack of the individual scalar solves -/
 
@@ -216,3 +217,27 @@ theorem C04_join_failure_value_dependent_only_singular {a a' b b' : St F} (ha : 
   · exact Or.inr hs
 
 end ControlFlow
+
+section HierSweep
+variable {F : Type} [Scalar F]
+
+/-- C04 (end-to-end model of a sweep over a hierarchy): when the lengths are consistent (`normalise` returns `ns`) the model of
+`top.solve(**kw)` with array-valued parameters has `ns` points and point `i` *is* the scalar solve of the hierarchy at the `i`-th
+values (length-1 values broadcast); inconsistent lengths are rejected.  This is the reference the batched computation of the code
+is compared with on every run (`phsweep`). -/
+theorem C04_model_hier_sweep (sched : List (St F) → Option (Nat × Nat)) (kw : List (String × List F)) (t : PNet F) :
+    (Sweep.normalise (kw.map (·.2.length)) = none → PNet.psweep sched kw t = none) ∧
+    (∀ ns, Sweep.normalise (kw.map (·.2.length)) = some ns →
+      ∃ rs, PNet.psweep sched kw t = some rs ∧ rs.length = ns ∧
+        ∀ i (hi : i < rs.length), rs[i] =
+          PNet.psolve sched ⟨kw.map fun kv => (kv.1, ((Sweep.bcast ns kv.2)[i]?).getD default)⟩ t) := by
+  constructor
+  · intro h; simp [PNet.psweep, h]
+  · intro ns h
+    refine ⟨(List.range ns).map fun i =>
+      PNet.psolve sched ⟨kw.map fun kv => (kv.1, ((Sweep.bcast ns kv.2)[i]?).getD default)⟩ t, ?_, by simp, ?_⟩
+    · simp only [PNet.psweep, h]
+    · intro i hi
+      simp
+
+end HierSweep
